@@ -252,6 +252,9 @@ type run struct {
 	inStep  bool
 	request int
 	narrow  map[string]bool // registers filled narrower than 8 bytes with lost upper bytes
+	// what the provider supplied and nothing has overwritten since
+	suppliedR map[string]supplied
+	suppliedM map[uint64]byte
 }
 
 func (r *run) fail(prop, oracle, sig string, format string, args ...interface{}) {
@@ -325,7 +328,14 @@ func (r *run) Register(key expr.Key, w expr.Width) expr.Const {
 	} else {
 		r.fail("C03", "provider", "provider/strange-register", "provider asked for a register that is no RISC-V state: %s", k)
 	}
+	r.suppliedR[k] = supplied{v: maskW(v, int(w)), w: int(w)}
 	return constLE(v, int(w))
+}
+
+// supplied: what the provider answered for a register (until overwritten).
+type supplied struct {
+	v uint64
+	w int
 }
 
 func (r *run) bindCSR(key string, n int) {
@@ -357,6 +367,7 @@ func (r *run) Memory(key expr.Key, addr model.Addr, w expr.Width) expr.Const {
 		}
 		r.askedM[a], r.knownM[a] = true, true
 		bs[i] = r.mem.Read(a)
+		r.suppliedM[a] = bs[i]
 	}
 	if r.knownM[uint64(addr)-1] || r.knownM[uint64(addr)+uint64(w)] {
 		split = true
@@ -389,6 +400,7 @@ func (e *Engine) Execute(tr core.Trace, ctx *core.Ctx) {
 		return
 	}
 	r := &run{ctx: ctx, t: t, curCSR: -1, csrKey: map[string]int{}, csrNum: map[int]string{},
+		suppliedR: map[string]supplied{}, suppliedM: map[uint64]byte{},
 		narrow: map[string]bool{}, knownR: map[string]bool{}, askedR: map[string]bool{}, knownM: map[uint64]bool{}, askedM: map[uint64]bool{}, starts: map[uint64]uint32{}}
 	r.mem = &refMem{seed: t.Seed, written: map[uint64]byte{}, image: map[uint64]byte{}}
 	codeBytes := map[uint64]bool{}
@@ -467,6 +479,8 @@ func (e *Engine) Execute(tr core.Trace, ctx *core.Ctx) {
 			st.Regs.Store(expr.Key(k), constLE(op.Val, 8), 8)
 			r.m.X[op.Reg] = op.Val
 			r.knownR[k] = true
+			delete(r.suppliedR, k)
+			delete(r.narrow, k)
 			ctx.Fault("operator_reg_write")
 		case "oppc":
 			st.Regs.Store(expr.IPKey, constLE(op.Val, 8), 8)
@@ -493,6 +507,7 @@ func (e *Engine) Execute(tr core.Trace, ctx *core.Ctx) {
 			for k, b := range bs {
 				r.mem.Write(op.Addr+uint64(k), b)
 				r.knownM[op.Addr+uint64(k)] = true
+				delete(r.suppliedM, op.Addr+uint64(k))
 			}
 			ctx.Fault("operator_mem_write")
 		case "step":
@@ -702,6 +717,40 @@ func (r *run) step(em *emulator.Emulator, codeBytes map[uint64]bool) {
 	}
 	if info.Rd != 0 {
 		defer delete(r.narrow, "x"+strconv.Itoa(info.Rd))
+	}
+	// C04: every later read observes the supplied value until the program (or
+	// the operator) overwrites it.
+	for k, c := range sr.RegLoads {
+		if s, ok := r.suppliedR[string(k)]; ok {
+			w := int(c.Width())
+			if s.w < w {
+				w = s.w
+			}
+			if maskW(u64(c), w) != maskW(s.v, w) {
+				r.fail("C04", "supplied-value-observed", "supplied/register-value-lost", "%s at %#x reads %s = %#x but the provider supplied %#x (width %d) and nothing overwrote it since", name, pc, k, u64(c), s.v, s.w)
+			}
+		}
+	}
+	for _, a := range sr.MemLoads {
+		for i, b := range a.Value.Bytes() {
+			if want, ok := r.suppliedM[uint64(a.Addr)+uint64(i)]; ok && b != want {
+				r.fail("C04", "supplied-value-observed", "supplied/byte-value-lost", "%s at %#x reads byte %#x = %#02x but the provider supplied %#02x and nothing overwrote it since", name, pc, uint64(a.Addr)+uint64(i), b, want)
+				break
+			}
+		}
+	}
+	if info.Rd != 0 {
+		delete(r.suppliedR, "x"+strconv.Itoa(info.Rd))
+	}
+	if info.CSR >= 0 {
+		if key, ok := r.csrNum[info.CSR]; ok {
+			delete(r.suppliedR, key)
+		}
+	}
+	for _, s := range info.Stores {
+		for i := 0; i < s.W; i++ {
+			delete(r.suppliedM, s.Addr+uint64(i))
+		}
 	}
 	for k, c := range sr.RegLoads {
 		key := string(k)
